@@ -526,6 +526,10 @@ func genScript(t *rapid.T) Script {
 		case 2, 3: // status
 			r.Status = rapid.SampledFrom([]int{200, 201, 202, 204, 206, 299, 301, 302, 304, 400, 401, 403, 404, 405, 416, 429, 500, 503, 599, 101, 101}).Draw(t, "status")
 			r.Fault = "status"
+			if r.Body == "empty" && rapid.Bool().Draw(t, "statusWithBody") {
+				// an answer the operation expects no body from, with one all the same
+				r.Body = rapid.SampledFrom([]string{"error", "garbage", "blob", "big200k"}).Draw(t, "unexpectedBody")
+			}
 			if r.Status == 101 {
 				// an unsolicited protocol switch: net/http then hands over the connection itself as the body
 				r.Headers = map[string]string{"Connection": "Upgrade", "Upgrade": "websocket"}
